@@ -28,4 +28,15 @@ with open(os.path.join(S, "RESULTS.md"), "w") as f:
         f.write("| %s | %s | %s | %s | %s | %s |\n" % r)
     n = len(rows); c = sum(1 for r in rows if r[2] == "CAUGHT")
     f.write("\n%d changes, %d caught (%d with a concrete replay).\n" % (n, c, sum(1 for r in rows if r[2] == "CAUGHT" and r[3] == "concrete replay")))
+    rulings = []
+    for name in sorted(os.listdir(S)):
+        mp = os.path.join(S, name, "meta.json")
+        if os.path.exists(mp):
+            m = json.load(open(mp))
+            if m.get("ruling"):
+                rulings.append((name, m["ruling"]))
+    if rulings:
+        f.write("\n## Rulings (changes that are not caught with a concrete replay by their own property's check)\n\n")
+        for name, r in rulings:
+            f.write("* **%s** — %s\n" % (name, r))
 print("written", len(rows))
